@@ -127,6 +127,8 @@ package mint
 //@   ensures @amount [C02,C03] err == nil ==> sum.sig.amount(seq(result), len(result)) <= old(db.mqrow)[mintTokensRequest.Quote].Amount
 //@   ensures @sigsaved [C15] err == nil && result != nil ==> (forall i :: 0 <= i && i < len(mintTokensRequest.Outputs) ==> db.sig[mintTokensRequest.Outputs[i].B_])
 //@   ensures @otherquotes [C03] forall x Str :: x != mintTokensRequest.Quote ==> db.mqrow[x] == old(db.mqrow)[x]
+// a single storage error never leaves a quote ISSUED that was not issued before (no signatures were handed out)
+//@   ensures @faultrevert [C07] err != nil && db.faults == old(db.faults) + 1 && db.mq[mintTokensRequest.Quote] && old(db.mqrow)[mintTokensRequest.Quote].State != nut04.Issued ==> db.mqrow[mintTokensRequest.Quote].State != nut04.Issued
 //@   ensures @revert [C06] err != nil && db.faults == old(db.faults) ==> db.mqrow[mintTokensRequest.Quote].State == old(db.mqrow)[mintTokensRequest.Quote].State || (old(db.mqrow)[mintTokensRequest.Quote].State == nut04.Unpaid && db.mqrow[mintTokensRequest.Quote].State == nut04.Paid)
 //@   ensures @nosigonerr [C06] err != nil && db.faults == old(db.faults) ==> db.sig == old(db.sig)
 
